@@ -138,6 +138,8 @@ class Model:
         g["range"] = Builtin("range", self.b_range)
         g["iter"] = Builtin("iter", lambda it, a, k: a[0])
         g["sorted"] = Builtin("sorted", self.b_sorted)
+        g["all"] = Builtin("all", self.b_all)
+        g["any"] = Builtin("any", self.b_any)
         g["id"] = Builtin("id", self.b_id)
         g["hasattr"] = Builtin("hasattr", self.b_hasattr)
         g["TYPE_CHECKING"] = False
@@ -258,6 +260,25 @@ class Model:
         if all(isinstance(a, int) for a in args):
             return range(*args)
         raise Unsupported("symbolic range")
+
+    def b_all(self, it, args, kw):
+        """all(<generator expression over a symbolic collection>) = forall x in S. cond(x)"""
+        v = args[0]
+        c = it.concrete_items(v)
+        if c is not None:
+            return _wrapb(_zand([_zb(it.truthy(x)) for x in c]))
+        if isinstance(v, (SymIter, Snapshot)) and v.elem_ty.sort() == z3.BoolSort():
+            return SV(BOOL, z3.Not(v.member(z3.BoolVal(False))))
+        raise Unsupported("all() of a symbolic collection of non-booleans")
+
+    def b_any(self, it, args, kw):
+        v = args[0]
+        c = it.concrete_items(v)
+        if c is not None:
+            return _wrapb(_zor([_zb(it.truthy(x)) for x in c]))
+        if isinstance(v, (SymIter, Snapshot)) and v.elem_ty.sort() == z3.BoolSort():
+            return SV(BOOL, v.member(z3.BoolVal(True)))
+        raise Unsupported("any() of a symbolic collection of non-booleans")
 
     def b_sorted(self, it, args, kw):
         raise Unsupported("sorted()")
@@ -537,6 +558,17 @@ class Model:
                     p.oblige(f"dict.get-default-unused@{getattr(e, 'lineno', '?')}",
                              z3.ForAll(xs, f) if xs else f, it.where(e), "typing")
                     return SV(ty.v, os_.get(ent))
+        if isinstance(e.func, ast.Attribute) and not e.keywords:
+            obj = it.deref(pe.ev(e.func.value, env))
+            if isinstance(obj, SV) and isinstance(obj.ty, TObj):
+                from .source import mangle as _m
+                c = self.find_method_contract(obj.ty.cls, _m(it.cur_cls, e.func.attr))
+                if c is not None and getattr(c, "pure_value", None) is not None:
+                    # a side-effect free method whose contract gives its value as a term: usable under a binder
+                    args = [pe.ev(a, env) for a in e.args]
+                    a = self.bind_args(it, c, args, {})
+                    cc = CallCtx(p, it, a, p.snapshot_state(), None, None, obj, self)
+                    return SV(c.ret, _zb(c.pure_value(cc)))
         if isinstance(e.func, ast.Name) and not e.keywords:
             f = it.lookup(e.func.id, env, e)
             if isinstance(f, Builtin) and f.name in ("isinstance", "_assertnode", "len", "bool"):
